@@ -1141,6 +1141,9 @@ impl<'de, R: Read<'de>> Parser<R> {
                     return self.parse_exponent(pos, significand, exponent);
                 }
                 _ => {
+                    if radix != 10 {
+                        return self.f64_from_radix_parts(pos, significand, radix, exponent);
+                    }
                     return self.f64_from_parts(pos, significand, exponent);
                 }
             };
@@ -1152,6 +1155,22 @@ impl<'de, R: Read<'de>> Parser<R> {
             // Ignore that possibility.
             exponent += 1;
         }
+    }
+
+    // Scale an over-long integer given in a non-decimal radix: the digits that
+    // did not fit into the significand count as a power of that radix.
+    fn f64_from_radix_parts(
+        &mut self,
+        pos: bool,
+        significand: u64,
+        radix: u8,
+        exponent: i32,
+    ) -> Result<f64> {
+        let f = (significand as f64) * f64::from(radix).powi(exponent);
+        if f.is_infinite() {
+            return Err(self.error(ErrorCode::NumberOutOfRange));
+        }
+        Ok(if pos { f } else { -f })
     }
 
     fn parse_num_tail(&mut self, radix: u8, pos: bool, significand: u64) -> Result<Number> {
